@@ -17,6 +17,7 @@ type Attempt struct {
 	Preemptor int64
 	Action    int64 // 1 preempt, 2 reclaim
 	Obs       []CandObs
+	Failed    bool // the Pipeline of this attempt failed and was rolled back
 	done      bool
 }
 
@@ -60,7 +61,7 @@ func (w *World) Reconstruct() []Choice {
 	var cur *TaskGroup
 	var att *Attempt
 	closeAtt := func() {
-		if att != nil && cur != nil && (len(att.Order) > 0 || att.Pipelined != 0) {
+		if att != nil && cur != nil && (len(att.Order) > 0 || att.Pipelined != 0 || att.Failed) {
 			cur.Atts = append(cur.Atts, att)
 		}
 		att = nil
@@ -110,6 +111,14 @@ func (w *World) Reconstruct() []Choice {
 					att.Node = e.Node
 				}
 				att.done = true
+				// Statement.Pipeline that failed (a handler reported Event.Err) rolls itself back at
+				// once: the very next callback is the deallocate of the same task, Pending again
+				if i+1 < len(w.Trace) {
+					if n := w.Trace[i+1]; n.Kind == 0 && n.Task == e.Task && n.Status == sched.SPending {
+						att.Pipelined = 0
+						att.Failed = true
+					}
+				}
 			}
 		case 13:
 			closeGroup()
